@@ -149,7 +149,7 @@ func twinEvents(side string, op, size int, suffix []wop, accBase int) []wev {
 
 func c18w(c *ctx) {
 	t := &traceSink{out: vh.NewOut(c.dir, "c18w", 60000), shapes: vh.Shapes{}, meta: &vh.Meta{Property: "C18", Tier: c.tier, Seed: c.seed,
-		Rule: "writer: every history of depth D over 12 operations (incl. growth, disabled flushing, extension, source error) with a healthy destination or one failing at write 1..3, then Reset(side', op') or PutWriter/GetWriter, then every suffix of depth 2 over 9 operations + Flush, in lock-step with a freshly constructed writer of the same Size(); distinct = (history, reset kind, suffix frame shape)"}}
+		Rule: "writer: every history of depth D over 12 operations (incl. growth, disabled flushing, extension, source error) with a healthy destination or one failing at write 1..3, then Reset(side', op'), PutWriter/GetWriter or ResetOp(same / other opcode), then every suffix of depth 2 over 9 operations + Flush, in lock-step with a freshly constructed writer of the same Size(); distinct = (history, reset kind, suffix frame shape)"}}
 	defer t.out.Close()
 	depth := 2
 	if c.thorough {
@@ -159,7 +159,9 @@ func c18w(c *ctx) {
 	if c.thorough {
 		cfgs = append(cfgs, wconfig{"NewWriterSize", 126, "server", 1, false, nil}, wconfig{"GetWriter", 64, "client", 1, false, nil})
 	}
-	resets := []wop{{"Reset", "server/1", ""}, {"Reset", "client/2", ""}, {"PutGet", "server/2", ""}}
+	// ResetOp with the writer's own opcode and with another one (judged by the monitor: the next message
+	// starts afresh, extensions and flush mode stay)
+	resets := []wop{{"Reset", "server/1", ""}, {"Reset", "client/2", ""}, {"PutGet", "server/2", ""}, {"ResetOp", "1", ""}, {"ResetOp", "2", ""}}
 	n := 0
 	for ci, cf := range cfgs {
 		seqs(wHistAlphabet, depth, func(h []wop) {
